@@ -194,15 +194,19 @@ PROPS["C19"] = {
              "and observed result (forwarded or not, identified by a unique value field). Oracle: per series the history must be linearizable "
              "w.r.t. a max-register 'accept iff ts > current; current := ts' (porcupine), accepted timestamps pairwise distinct, a positive "
              "timestamp newer than all other points of its series never rejected, out_of_order counter delta = number rejected, no invalid, "
-             "every rejected series visible in Table.Bad() with the not-newer reason, rejected points reach no route. Non-trivial: a series "
-             "touched by >=2 goroutines with an equal or decreasing timestamp. Distinct = hash(goroutines, observed history)."),
+             "every rejected series visible in Table.Bad() with the not-newer reason, rejected points reach no route. many_names: 20 000 - 300 000 distinct "
+             "names from a drawn template (hex ids, numbered hosts, shared prefix or shared suffix; consecutive or scattered ids), each sent "
+             "once with a timestamp OLDER than that of every name before it: every one of these first points must be accepted (whatever makes "
+             "two names share state -- a short hash, a bounded or evicting table, a key that drops part of the name -- rejects some), then "
+             "equal / older / newer probes on names from the beginning, middle and end, against a per-name model. Non-trivial: a series "
+             "touched by >=2 goroutines with an equal or decreasing timestamp (many_names: >= 100 000 names). Distinct = hash(goroutines, observed history)."),
     "level_text": "Generated concurrent histories checked for linearizability against a sequential max-register specification, plus a -race run; interleavings are sampled by the Go scheduler.",
     "level_note": "The critical section is tiny, so schedules that expose a missing lock are rare without -race; the thorough tier and the quick -race run are the stronger signal for lock removal.",
     "technique": "property-based testing (rapid) of concurrent histories + linearizability checking (porcupine) against a max-register model; race detector",
     "assumptions": ["timestamps are integers within uint32", "wall-clock monotonic time orders call/return events"],
-    "quick": [R("TestPropOrdered", 2500), R("TestPropOrdered", 400, race=True, env={"GOMAXPROCS": 8})],
+    "quick": [R("TestPropOrdered", 2500), R("TestPropOrdered", 400, race=True, env={"GOMAXPROCS": 8}), R("TestPropManyNames", 6)],
     "thorough": [R("TestPropOrdered", 20000, shards=8, timeout=2400), R("TestPropOrdered", 20000, shards=4, timeout=2400, env={"GOMAXPROCS": 2}),
-                 R("TestPropOrdered", 4000, shards=4, race=True, timeout=2400)],
+                 R("TestPropOrdered", 4000, shards=4, race=True, timeout=2400), R("TestPropManyNames", 30, shards=4, timeout=2400)],
 }
 
 PROPS["C01"] = {
